@@ -924,7 +924,40 @@ def task_allow_rename():
         interp.natives[real_ast.literal_eval] = literal_eval
         r = interp.call(interp.wrap(umod.find__all__), [module], {})
         rd = ctx.data(r) if isinstance(r, Obj) else None
-        # the statement analysed in the arbitrary iteration
+        # the statement analysed in the arbitrary iteration; what the code never looked at is materialised now, so that a statement kind the code skips
+        # without examining it (an annotated or augmented assignment to __all__ ...) is still subject to the universal below
+        for k, st in list(sd.items.items()):
+            d = ctx.data(st)
+            kinds = d.tags & {'Assign', 'AugAssign', 'AnnAssign'}
+            chosen = None
+            for t in sorted(kinds):
+                if len(kinds) == 1 or ctx.branch(d.tagvar == tag_const(t)):
+                    chosen = t
+                    break
+            if chosen is None:
+                continue
+            interp.narrow(st, {chosen})
+            v0 = interp.getattr(st, 'value')
+            if isinstance(v0, Obj) and ctx.data(v0).kind == 'node':
+                vd0 = ctx.data(v0)
+                seqs = vd0.tags & {'List', 'Tuple'}
+                if seqs and (vd0.tags <= seqs or ctx.branch(z3.Or([vd0.tagvar == tag_const(t) for t in sorted(seqs)]))):
+                    interp.narrow(v0, seqs)
+                    interp.getattr(v0, 'elts')
+            if chosen == 'Assign':
+                tl = interp.getattr(st, 'targets')
+                if ctx.data(tl).symlen is not None:
+                    ctx.assume(ctx.data(tl).symlen >= 1)       # AST validity: an Assign has at least one target
+                if not ctx.data(tl).items:
+                    t0 = interp.list_elem(tl, ('g', 'post'))
+                    if 'Name' in ctx.data(t0).tags and ctx.branch(ctx.data(t0).tagvar == tag_const('Name')):
+                        interp.narrow(t0, {'Name'})
+                        interp.getattr(t0, 'id')
+            else:
+                t0 = interp.getattr(st, 'target')
+                if isinstance(t0, Obj) and 'Name' in ctx.data(t0).tags and (ctx.data(t0).tags == {'Name'} or ctx.branch(ctx.data(t0).tagvar == tag_const('Name'))):
+                    interp.narrow(t0, {'Name'})
+                    interp.getattr(t0, 'id')
         for k, st in sd.items.items():
             d = ctx.data(st)
             val = d.fields.get('value')
@@ -938,7 +971,8 @@ def task_allow_rename():
             # the universal "every string element is collected" is carried by the arbitrary element of a loop over the elements: when a list
             # display assigned to __all__ is accepted or rejected WITHOUT such a loop, nothing is established for its elements
             looped = [ek for ek in ctx.data(elts).items if isinstance(ek, tuple) and ek and ek[0] == 'g' and ek[1:] != ('literal_eval',)]
-            if not looped and ctx.data(elts).symlen is not None and ctx.solver.check(ctx.data(elts).symlen >= 1, vd.tagvar == tag_const('List')) == z3.sat:
+            is_display = z3.Or(vd.tagvar == tag_const('List'), vd.tagvar == tag_const('Tuple')) if vd.tagvar is not None else z3.BoolVal(bool(vd.tags & {'List', 'Tuple'}))
+            if not looped and ctx.data(elts).symlen is not None and ctx.solver.check(ctx.data(elts).symlen >= 1, is_display) == z3.sat:
                 tgt = z3.BoolVal(False)
                 for tk, t in (ctx.data(d.fields['targets']).items.items() if 'targets' in d.fields and isinstance(d.fields['targets'], Obj) else []):
                     if isinstance(t, Obj) and 'id' in ctx.data(t).fields:
@@ -947,7 +981,7 @@ def task_allow_rename():
                     t = d.fields['target']
                     tgt = z3.Or(tgt, z3.And(ctx.data(t).tagvar == tag_const('Name'), ctx.data(t).fields['id'] == z3.StringVal('__all__')))
                 ctx.check('C10/find__all__/string-elements-of-a-literal-__all__-list-are-collected',
-                          z3.Not(z3.And(tgt, vd.tagvar == tag_const('List'), ctx.data(elts).symlen >= 1)), kind='post',
+                          z3.Not(z3.And(tgt, is_display, ctx.data(elts).symlen >= 1)), kind='post',
                           detail='[needs-witness] a list display assigned to __all__ was handled without looking at each of its elements '
                                  '(e.g. rejected as a whole because ONE element is not a literal): its string elements are not collected')
             for ek, el in ctx.data(elts).items.items():
@@ -970,8 +1004,8 @@ def task_allow_rename():
                     # what is collected is a string element of a value assigned to __all__ (a tuple display is accepted as well: preserving more is harmless)
                     ctx.check('C10/find__all__/only-string-elements-of-an-__all__-assignment-are-collected', z3.And(is_str, tgt_all), kind='post')
                 else:
-                    ctx.check('C10/find__all__/string-elements-of-a-literal-__all__-list-are-collected', z3.Not(z3.And(is_str, tgt_all, vd.tagvar == tag_const('List'))),
-                              kind='post', detail='a string element of a list display assigned to __all__ is not collected')
+                    ctx.check('C10/find__all__/string-elements-of-a-literal-__all__-list-are-collected', z3.Not(z3.And(is_str, tgt_all, is_display)),
+                              kind='post', detail='a string element of a list / tuple display assigned to __all__ is not collected')
         ctx.check('C10/find__all__/returns-a-list', rd is not None, kind='post')
         # "a literal __all__ list" may sit in any statement of the module (if sys.version_info >= ...: __all__ += [...]): every node is examined
         ctx.check('C10/find__all__/every-node-of-the-module-is-examined', searched == [('walk', module)], kind='post',
